@@ -913,7 +913,9 @@ fn get_dictionary_values(
             // Read a single column
             let record_batch = RecordBatchDecoder::try_new(
                 buf,
-                batch.data().unwrap(),
+                batch.data().ok_or_else(|| {
+                    ArrowError::IpcError("Dictionary batch contains no record batch".to_string())
+                })?,
                 Arc::new(schema),
                 dictionaries_by_id,
                 metadata,
